@@ -36,6 +36,7 @@ VARIABLES
   att,      \* installed attacher: "none" | "A" (scripted) | "V" (the via-circuit attacher) | "P" (the PriorityAttacher)
   ps,       \* the PriorityAttacher's sub-attachers in the order they were added: <<[sub, prio]>>
   cons,     \* sub-attachers consulted in this step, in order
+  told,     \* the last __LeaveStreamsUnattached value issued to Tor (-1: none yet)
   cs,       \* circuit id -> "none" | "BUILDING" | "BUILT" | "GONE"
   st,       \* stream -> [seen, kind, port, ans (pending deferred answer or "-"), dec (decisions sent), rep (errors reported), asked]
   via,      \* conn -> [st: "idle"|"waitaddr"|"reg"|"done"|"refused", circ, port]
@@ -44,7 +45,7 @@ VARIABLES
   cq,       \* commands queued behind that SETCONF (one command is on the wire at a time)
   steps
 
-vars == <<att, ps, cons, cs, st, via, wire, hold, cq, steps>>
+vars == <<att, ps, cons, told, cs, st, via, wire, hold, cq, steps>>
 
 S0 == [seen |-> FALSE, kind |-> "", port |-> 0, ans |-> "-", dec |-> <<>>, rep |-> 0, asked |-> 0, end |-> ""]
 V0 == [st |-> "idle", circ |-> 0, port |-> 0]
@@ -53,7 +54,7 @@ Init ==
   /\ att = "none" /\ cs = [c \in Circs |-> "none"]
   /\ st = [s \in Streams |-> S0] /\ via = [k \in Conns |-> V0]
   /\ wire = <<>> /\ hold = FALSE /\ cq = <<>> /\ steps = 0
-  /\ ps = <<>> /\ cons = <<>>
+  /\ ps = <<>> /\ cons = <<>> /\ told = -1
 
 Tick == steps' = steps + 1 /\ cons' = <<>> /\ UNCHANGED ps
 \* commands issued in a step reach the wire at once unless the connection is busy with the held SETCONF
@@ -73,6 +74,7 @@ ViaFor(p) == {k \in Conns : via[k].st = "reg" /\ via[k].port = p}
 
 \* Tor reports a stream we have not seen before
 NewStream(s, kind, p, a, mode) ==
+  /\ UNCHANGED told
   /\ ~st[s].seen /\ kind \in {"normal", "exit", "resolve"} /\ p \in Ports
   /\ a \in Answers /\ mode \in Modes /\ att # "P"
   /\ IF att = "none" \/ kind = "exit"
@@ -106,15 +108,18 @@ Winner(o, sa) == IF \E i \in 1..Len(o) : sa[o[i].sub] # "none"
                  THEN CHOOSE i \in 1..Len(o) : sa[o[i].sub] # "none" /\ \A j \in 1..(i - 1) : sa[o[j].sub] = "none"
                  ELSE 0
 AddSub(x, pr) ==
+  /\ UNCHANGED told
   /\ x \in Subs /\ pr \in Prios /\ ~InPS(x) /\ Len(ps) < MaxSubs
   /\ ps' = Append(ps, [sub |-> x, prio |-> pr])
   /\ steps' = steps + 1 /\ cons' = <<>> /\ Out(<<>>) /\ UNCHANGED <<att, cs, st, via>>
 RemSub(x) ==
+  /\ UNCHANGED told
   /\ InPS(x)
   /\ ps' = SelectSeq(ps, LAMBDA e : e.sub # x)
   /\ steps' = steps + 1 /\ cons' = <<>> /\ Out(<<>>) /\ UNCHANGED <<att, cs, st, via>>
 \* Tor reports a new stream while the PriorityAttacher is installed; sa = what each sub-attacher would answer
 NewStreamP(s, kind, p, sa) ==
+  /\ UNCHANGED told
   /\ att = "P" /\ ~st[s].seen /\ kind \in {"normal", "exit", "resolve"} /\ p \in Ports
   /\ sa \in [Subs -> SubAnswers]
   /\ IF kind = "exit"
@@ -130,6 +135,7 @@ NewStreamP(s, kind, p, sa) ==
 
 \* the Deferred the scripted attacher returned fires
 Answer(s) ==
+  /\ UNCHANGED told
   /\ st[s].seen /\ st[s].ans # "-"
   /\ LET d == Decide(s, st[s].ans) IN
        /\ st' = [st EXCEPT ![s].ans = "-", ![s].dec = d.dec, ![s].rep = d.rep]
@@ -139,20 +145,27 @@ Answer(s) ==
 \* Tor reports a stream we know FAILED (it is forgotten), and afterwards CLOSED (for the view: an unknown
 \* stream whose first event is terminal): neither is a new attachable stream, no decision is made
 StreamFailed(s) ==
+  /\ UNCHANGED told
   /\ st[s].seen /\ st[s].end = "" /\ st[s].ans = "-"
   /\ st' = [st EXCEPT ![s].end = "failed"]
   /\ Out(<<>>) /\ Tick /\ UNCHANGED <<att, cs, via>>
 LateClosed(s) ==
+  /\ UNCHANGED told
   /\ st[s].seen /\ st[s].end = "failed"
   /\ st' = [st EXCEPT ![s].end = "closed"]
   /\ Out(<<>>) /\ Tick /\ UNCHANGED <<att, cs, via>>
 
-\* TorState.set_attacher
-SetAttacher(a) ==
+\* TorState.set_attacher.  late = Tor answers the installing SETCONF in a later step (ConfAck); whatever is
+\* issued meanwhile - the removal's SETCONF included - waits behind it
+SetAttacher(a, late) ==
   /\ a \in {"A", "B", "P", "none"} /\ (a = "P" => MaxSubs > 0)
+  /\ late \in BOOLEAN /\ (late => att = "none" /\ a \in {"A", "P"})
+  /\ ((att = "none" /\ a \in {"A", "P"}) => ~hold)      \* one installation at a time
+  /\ told' = IF a = "none" THEN 0 ELSE IF att = "none" /\ a \in {"A", "P"} THEN 1 ELSE told
   /\ IF a = "none"
      THEN att' = "none" /\ Out(<< <<"SETCONF", 0, 0>> >>)
-     ELSE IF att = "none" /\ a \in {"A", "P"} THEN att' = a /\ Out(<< <<"SETCONF", 0, 1>> >>)
+     ELSE IF att = "none" /\ a \in {"A", "P"}
+     THEN att' = a /\ wire' = << <<"SETCONF", 0, 1>> >> /\ hold' = late /\ UNCHANGED cq
      ELSE \* the same attacher again: nothing; a different one (B, or A while V is installed): refused
           UNCHANGED att /\ Out(<<>>)
   /\ (a = "B" => att # "none")       \* B is only used as "a second, different attacher"
@@ -170,9 +183,9 @@ AfterConf(c) == IF cs[c] = "BUILT" THEN "waitaddr" ELSE IF cs[c] = "BUILDING" TH
 ViaConnect(k, c, late) ==
   /\ via[k].st = "idle" /\ cs[c] \in {"BUILDING", "BUILT"}
   /\ att \notin {"A", "P"}      \* the via-circuit API and a user attacher are not mixed (documented as an error)
-  /\ late \in BOOLEAN /\ (late => att = "none")
+  /\ late \in BOOLEAN /\ (late => att = "none") /\ (att = "none" => ~hold)
   /\ via' = [via EXCEPT ![k] = [st |-> IF late THEN "waitconf" ELSE AfterConf(c), circ |-> c, port |-> 0]]
-  /\ att' = "V"
+  /\ att' = "V" /\ told' = 1
   /\ IF att = "none"
      THEN wire' = << <<"SETCONF", 0, 1>> >> /\ hold' = late /\ UNCHANGED cq
      ELSE Out(<<>>)
@@ -180,12 +193,14 @@ ViaConnect(k, c, late) ==
 
 \* Tor answers the held SETCONF: queued commands follow, the first connection goes on
 ConfAck ==
+  /\ UNCHANGED told
   /\ hold /\ hold' = FALSE /\ wire' = cq /\ cq' = <<>>
   /\ via' = [k \in Conns |-> IF via[k].st = "waitconf" THEN [via[k] EXCEPT !.st = AfterConf(via[k].circ)] ELSE via[k]]
   /\ Tick /\ UNCHANGED <<att, cs, st>>
 
 \* the SOCKS connection of k is made from local port p
 ViaAddr(k, p) ==
+  /\ UNCHANGED told
   /\ via[k].st = "waitaddr" /\ p \in Ports
   /\ \A j \in Conns : via[j].st = "reg" => via[j].port # p
   /\ \A s \in Streams : st[s].seen => st[s].port # p       \* the stream for this connection comes later
@@ -194,6 +209,7 @@ ViaAddr(k, p) ==
 
 \* circuits appear, get built, go away (circuits in use by a pending via connection stay)
 CircStep(c, to) ==
+  /\ UNCHANGED told
   /\ \/ cs[c] = "none" /\ to = "BUILDING"
      \/ cs[c] = "BUILDING" /\ to \in {"BUILT", "GONE"}
      \/ cs[c] = "BUILT" /\ to = "GONE" /\ \A k \in Conns : via[k].st \in {"waitconf", "waitaddr", "reg"} => via[k].circ # c
@@ -208,7 +224,7 @@ Next ==
   /\ \/ \E s \in Streams, kind \in {"normal", "exit", "resolve"}, p \in Ports, a \in Answers, mode \in Modes :
           NewStream(s, kind, p, a, mode) /\ (att # "A" => a = "none" /\ mode = "imm")
      \/ \E s \in Streams : Answer(s) \/ StreamFailed(s) \/ LateClosed(s)
-     \/ \E a \in {"A", "B", "P", "none"} : SetAttacher(a)
+     \/ \E a \in {"A", "B", "P", "none"}, late \in BOOLEAN : SetAttacher(a, late)
      \/ \E k \in Conns, c \in Circs, late \in BOOLEAN : ViaConnect(k, c, late)
      \/ ConfAck
      \/ \E k \in Conns, p \in Ports : ViaAddr(k, p)
@@ -240,5 +256,8 @@ ConsultedInOrder ==
   \A i \in 1..Len(cons) : \A j \in 1..Len(ps) :
      LET me == CHOOSE m \in 1..Len(ps) : ps[m].sub = cons[i] IN
        (ps[j].prio < ps[me].prio \/ (ps[j].prio = ps[me].prio /\ j < me)) => \E h \in 1..(i - 1) : cons[h] = ps[j].sub
-TypeOK == att \in {"none", "A", "V", "P"} /\ (~hold => cq = <<>>) /\ (hold => att = "V")
+\* removing the attacher tells Tor to resume attaching streams itself (and installing one tells it to stop):
+\* the last value issued always matches whether an attacher is installed
+ToldMatches == IF att = "none" THEN told \in {-1, 0} ELSE told = 1
+TypeOK == att \in {"none", "A", "V", "P"} /\ (~hold => cq = <<>>) /\ (hold => att \in {"V", "A", "P", "none"})
 =============================================================================
